@@ -294,7 +294,7 @@ class VectorAttributeSet(AttributeSet):
             arr = arr.drop_null()
             ids = ids[mask.to_numpy(zero_copy_only=False)]
 
-        mat = arr.values.to_numpy().reshape((len(arr), arr.type.list_size))
+        mat = arr.values.to_numpy(zero_copy_only=False).reshape((len(arr), arr.type.list_size))
         return pd.DataFrame(mat, index=ids, columns=self.dim_names)
 
 
